@@ -38,7 +38,7 @@ theorem integrateWork_good (σ : Static) (e : EnvSt) (q : WQ) (w : Work) (pt : O
   have hold2 : SKnown e.introS (w.tasks.foldl (addTask σ) (addGroups σ q w.groups pt.isSome).1) :=
     hold1.shrink s2.tsub (fun x hx => f2.rs ▸ hx)
   have ok2 : WorkOk σ e (w.tasks.foldl (addTask σ) (addGroups σ q w.groups pt.isSome).1) w :=
-    ⟨ok.gnodup, ok.snodup, ok.gfresh, ok.sfresh, ok.noself⟩
+    ⟨ok.gnodup, ok.snodup, ok.gfresh, ok.sfresh, ok.noself, ok.plt⟩
   have hgroups : ∀ x ∈ (addGroups σ q w.groups pt.isSome).2, x ∈ w.groups ∧ σ.parent x = none :=
     fun x hx => ⟨(m1 x hx).1, (m1 x hx).2.1⟩
   cases pt with
@@ -219,6 +219,44 @@ theorem collect_shrink (σ : Static) (ts : List Nat) (acc : WQ × List GVal × L
     Shrink acc.1 (ts.foldl (collectTask σ) acc).1 :=
   foldl_shrink1 _ ts acc (collectTask_shrink σ)
 
+theorem removeTask_nodes_kept (σ : Static) (q : WQ) (t : Nat) (k : Nat) (h : hasNode q k) :
+    hasNode (removeTask σ q t) k := by
+  unfold removeTask
+  simp only
+  have key : ∀ (gs : List Nat) (gn : List (Nat × GroupNode)),
+      (∃ n, alookup gn k = some n) →
+      ∃ n, alookup (gs.foldl (fun gn g =>
+        match alookup gn g with
+        | some n => aset gn g { n with tasks := oerase n.tasks t }
+        | none => gn) gn) k = some n := by
+    intro gs
+    induction gs with
+    | nil => intro gn h; exact h
+    | cons g gs ih =>
+      intro gn ⟨n, hn⟩
+      simp only [List.foldl_cons]
+      apply ih
+      cases hg : alookup gn g with
+      | none => exact ⟨n, hn⟩
+      | some ng =>
+        simp only
+        by_cases e : g = k
+        · subst e; exact ⟨_, alookup_aset_self _ _ _⟩
+        · exact ⟨n, by rw [alookup_aset_ne _ _ _ _ e]; exact hn⟩
+  exact key (σ.tgroups t) q.groupNodes h
+
+theorem collect_nodes_kept (σ : Static) (ts : List Nat) (acc : WQ × List GVal × List Nat) (k : Nat)
+    (h : hasNode acc.1 k) : hasNode (ts.foldl (collectTask σ) acc).1 k := by
+  induction ts generalizing acc with
+  | nil => exact h
+  | cons t ts ih =>
+    simp only [List.foldl_cons]
+    apply ih
+    unfold collectTask
+    split
+    · exact removeTask_nodes_kept σ _ t k h
+    · exact h
+
 /-- What `_finish_group_success` returns on a good graph. -/
 structure FinishOut (σ : Static) (e : EnvSt) (q : WQ) (g : Nat)
     (f : WQ × List WQEvent × List Nat × List Nat) : Prop where
@@ -233,6 +271,8 @@ structure FinishOut (σ : Static) (e : EnvSt) (q : WQ) (g : Nat)
   ssrc : ∀ s ∈ f.2.2.2, ∃ t tn, alookup q.taskNodes t = some tn ∧ s ∈ tn.childStreams
   sgone : ∀ s ∈ f.2.2.2, ∀ t tn, alookup f.1.taskNodes t = some tn → s ∉ tn.childStreams
   events : ∃ v, f.2.1 = groupEvents g v f.2.2.1 f.2.2.2
+  gkept : ∀ x ∈ f.2.2.1, hasNode f.1 x
+  del : ∀ k, hasNode q k → ¬ hasNode f.1 k → k = g ∨ ∃ p, hasChild q p k
 
 theorem finishGroupSuccess_out (σ : Static) (e : EnvSt) (q : WQ) (g : Nat) (n : GroupNode)
     (gd : Good σ e q) (hn : alookup q.groupNodes g = some n) :
@@ -283,7 +323,7 @@ theorem finishGroupSuccess_out (σ : Static) (e : EnvSt) (q : WQ) (g : Nat) (n :
       rootGroups := oerase (pruneEmpty (n.tasks.foldl (collectTask σ)
       (({ q with groupNodes := aerase q.groupNodes g } : WQ), ([] : List GVal), ([] : List Nat))).1 n.children).1.rootGroups g } : WQ) :=
     h123.trans (shrink_of_eq rfl rfl)
-  refine ⟨?_, hshr, by simp only; rw [hfr.rg], ⟨hfr.rs, hfr.st, hfr.pm⟩, hgone3, ?_, ?_, c1, ?_, ?_, ⟨_, rfl⟩⟩
+  refine ⟨?_, hshr, by simp only; rw [hfr.rg], ⟨hfr.rs, hfr.st, hfr.pm⟩, hgone3, ?_, ?_, c1, ?_, ?_, ⟨_, rfl⟩, ?_, ?_⟩
   · refine gd.shrink hshr ?_ ?_
     · intro x hx
       simp only [mem_oerase] at hx
@@ -303,5 +343,22 @@ theorem finishGroupSuccess_out (σ : Static) (e : EnvSt) (q : WQ) (g : Nat) (n :
     simp only [pruneEmpty] at ht
     rw [prune_taskNodes] at ht
     exact c3 s hs t tn ht
+  · intro x hx
+    rw [hnew] at hx
+    obtain ⟨m, hm⟩ := po.kept x hx
+    exact ⟨m, hm⟩
+  · intro k hk hno
+    by_cases hkg : k = g
+    · exact Or.inl hkg
+    · right
+      have hk1 : hasNode ({ q with groupNodes := aerase q.groupNodes g } : WQ) k := by
+        obtain ⟨m, hm⟩ := hk
+        exact ⟨m, by simp only; rw [alookup_aerase_ne _ _ _ (fun e => hkg e.symm)]; exact hm⟩
+      have hk2 : hasNode (n.tasks.foldl (collectTask σ)
+          (({ q with groupNodes := aerase q.groupNodes g } : WQ), ([] : List GVal), ([] : List Nat))).1 k :=
+        collect_nodes_kept σ n.tasks _ k hk1
+      rcases po.del k hk2 (fun ⟨m, hm⟩ => hno ⟨m, hm⟩) with h | ⟨p, hp, _⟩
+      · exact ⟨g, n, hn, h⟩
+      · exact ⟨p, h12.sub.hasChild hp⟩
 
 end Gql.Async
